@@ -167,6 +167,19 @@ Theorem C09_wait_closed_returns_refuted :
 Proof. exact wait_closed_returns_refuted. Qed.
 Print Assumptions C09_wait_closed_returns_refuted.
 
+(* ---- (5b) one wrapper, several tasks -------------------------------------------------------------- *)
+(* a task is in Wrapper._tasks exactly from its own successful __enter__ to its own __exit__, whatever the
+   other tasks of the call do and in whatever order they leave; so Wrapper.cancel reaches exactly the tasks
+   that are blocked inside a with-block at that moment *)
+Theorem C09_wrapper_members_exact : forall ops t, wmem t (wtasks (wrun ops)) = wspec t ops.
+Proof. exact wrapper_members_exact. Qed.
+Print Assumptions C09_wrapper_members_exact.
+
+Theorem C09_wrapper_cancel_reaches : forall ops t,
+  wmem t (wcancelled (wrun (ops ++ [WCancel]))) = wmem t (wcancelled (wrun ops)) || wspec t ops.
+Proof. exact wrapper_cancel_reaches. Qed.
+Print Assumptions C09_wrapper_cancel_reaches.
+
 (* ---- (6) graceful_exit ------------------------------------------------------------------------ *)
 Theorem C09_graceful_first_signal : forall l sig ex,
   forallb g_started l = true -> exit_handler sig (mkGS l false ex) = mkGS (map gclose l) true ex.
